@@ -723,11 +723,40 @@ func report(r *hk.Run, res *result) {
 		fmt.Sprintf("%d:%s", sc.Idx, desc), nt)
 }
 
+// RunSelected runs reps jittered copies of the special scenario whose kind equals
+// kind (measurement aid for the stand-alone driver; not used by the check).
+func RunSelected(r *hk.Run, rng *hk.Rand, kind string, reps int) {
+	var scs []*Scenario
+	for _, base := range specialScenarios(0, r.Seed, true) {
+		if base.Kind != kind || len(scs) >= reps {
+			continue
+		}
+		for len(scs) < reps {
+			sc := *base
+			sc.Idx = len(scs)
+			sc.Reqs = append([]ReqSpec(nil), base.Reqs...)
+			sc.C2PBuf = hk.Pick(rng, []int{2048, 4096, 4096, 8192, 16384})
+			sc.ReadDelayUs = hk.Pick(rng, []int{50, 100, 300, 300, 1000})
+			sc.TickUs = hk.Pick(rng, []int{500, 1000, 3000})
+			for i := range sc.Reqs {
+				if sc.Reqs[i].StartDelayUs > 0 {
+					sc.Reqs[i].StartDelayUs += rng.Intn(3000)
+				}
+			}
+			scs = append(scs, &sc)
+		}
+	}
+	runAll(r, scs)
+}
+
 // Run executes the scripted connections of one tier and records cases,
 // failures and the distribution in r.
 func Run(r *hk.Run, rng *hk.Rand) {
 	nRandom := r.Scale(48, 1480)
-	scs := BuildScenarios(r.Seed, rng, nRandom, !r.Quick())
+	runAll(r, BuildScenarios(r.Seed, rng, nRandom, !r.Quick()))
+}
+
+func runAll(r *hk.Run, scs []*Scenario) {
 	results := make([]*result, len(scs))
 	sem := make(chan struct{}, 4)
 	var wg sync.WaitGroup
